@@ -148,8 +148,15 @@ def run(repo: Repo, chk: Check) -> None:
     # ---- truth table of _is_transient_response -------------------------------------------------------------------
     chk.set_clause('C26.5')
     tf = repo.func(f'{NODE}._is_transient_response')
+    markers = repo.const(f'{NODE}._TRANSIENT_TEXT_MARKERS')
+    table_ok = isinstance(markers, (tuple, list, set, frozenset)) and set(markers) == {'prevalidator.ml'}
+    chk.ob('R-TABLE', f'{NODE}._TRANSIENT_TEXT_MARKERS', table_ok, 'marker list', tf.module.relpath, {'markers': markers if not isinstance(markers, (set, frozenset)) else sorted(markers)},
+           what=f'the table of text markers is {markers!r}, not the one-element collection ("prevalidator.ml",): a bare string is scanned character by character, so '
+                'nearly every non-JSON 5xx body counts as transient and is re-sent')
+    if not table_ok:
+        return
     hooks = TransientHooks()
-    res = Interp(repo, hooks, max_depth=1).run_function(tf, [Sym('res')])
+    res = Interp(repo, hooks, max_depth=1, max_paths=50000).run_function(tf, [Sym('res')])
     chk.minimum('paths of the transient predicate', len(res), 6)
     atoms_seen = set()
     for p in res:
@@ -174,18 +181,17 @@ def run(repo: Repo, chk: Check) -> None:
                 continue  # don't care
             got = p.value if p.outcome == 'return' else 'raise'
             if got is not want:
-                mismatches.append({'valuation': full, 'got': got, 'want': want})
+                mismatches.append({'valuation': {k: v for k, v in full.items() if v}, 'got': got, 'want': want})
         chk.ob('R-DISPATCH', tf.qualname, p.outcome == 'return' and not mismatches,
                'row ' + ' '.join(f'{k}={"T" if v else "F"}' for k, v in sorted(val.items())), tf.loc,
                {'result': vrepr(p.value), 'mismatch': mismatches[:2]},
-               what=f'transient predicate differs from the reference on {mismatches[:1]}')
-    chk.require({'json', 'parses', 'list', 'proto', 'temporary', 'marker'} <= atoms_seen, f'atoms not all exercised: {sorted(atoms_seen)}')
-    markers = repo.const(f'{NODE}._TRANSIENT_TEXT_MARKERS')
-    chk.ob('R-TABLE', f'{NODE}._TRANSIENT_TEXT_MARKERS', isinstance(markers, tuple) and 'prevalidator.ml' in markers and len(markers) == 1,
-           'marker list', tf.module.relpath, {'markers': markers}, what='prevalidator failure marker missing or extra markers retried')
+               what=f'transient predicate differs from the reference on {mismatches[:1]} (true atoms listed; errN = N-th element of the error list)')
+    need = {'json', 'parses', 'list', 'proto0', 'temporary0', 'proto1', 'temporary1', 'marker'}
+    chk.require(need <= atoms_seen, f'atoms not all exercised: {sorted(atoms_seen)}')
 
 
-ATOMS = ['json', 'parses', 'list', 'isdict', 'proto', 'temporary', 'marker']
+NERR = 2  # the error list is abstracted to two representative elements: the verdict must not depend on their order
+ATOMS = ['json', 'parses', 'list', 'marker'] + [f'{a}{i}' for i in range(NERR) for a in ('isdict', 'proto', 'temporary')]
 
 
 def feasible(v: Dict[str, bool]) -> bool:
@@ -193,16 +199,19 @@ def feasible(v: Dict[str, bool]) -> bool:
         return False
     if v['parses'] and not v['json']:
         return False
-    if (v['proto'] or v['temporary']) and not v['list']:
-        return False
+    for i in range(NERR):
+        if (v[f'proto{i}'] or v[f'temporary{i}']) and not v['list']:
+            return False
+        if (v[f'proto{i}'] or v[f'temporary{i}']) and not v[f'isdict{i}']:
+            return False
     return True
 
 
 def reference_transient(v: Dict[str, bool]):
     if v['json'] and v['parses'] and v['list']:
-        if v['isdict'] and v['proto']:
-            return None if v['marker'] else False  # documented: protocol errors are never retried; statement ambiguous with marker
-        if v['isdict'] and v['temporary']:
+        if any(v[f'isdict{i}'] and v[f'proto{i}'] for i in range(NERR)):
+            return None if v['marker'] else False  # documented: a protocol error anywhere in the list is never retried; statement ambiguous with marker
+        if any(v[f'isdict{i}'] and v[f'temporary{i}'] for i in range(NERR)):
             return True
     return v['marker']
 
@@ -213,12 +222,13 @@ def atom_name(c: Any):
         return 'json'
     if s.startswith('isinstance($body'):
         return 'list'
-    if s.startswith('isinstance($err'):
-        return 'isdict'
-    if 'startswith' in s and 'proto.' in s:
-        return 'proto'
-    if "'temporary'" in s:
-        return 'temporary'
+    idx = next((str(i) for i in range(NERR) if f'$err{i}' in s), None)
+    if s.startswith('isinstance($err') and idx is not None:
+        return 'isdict' + idx
+    if 'startswith' in s and 'proto.' in s and idx is not None:
+        return 'proto' + idx
+    if "'temporary'" in s and idx is not None:
+        return 'temporary' + idx
     if s.startswith('in(') and 'prevalidator.ml' in s:
         return 'marker'
     return None
@@ -236,11 +246,11 @@ class TransientHooks(Hooks):
 
     def iterate(self, it, obj, node):
         if isinstance(obj, Sym) and obj.name == 'body':
-            return [Sym('err')]  # predicate abstraction: one representative element per generator
+            return [Sym(f'err{i}') for i in range(NERR)]  # predicate abstraction: two representative elements (order matters to a first-match loop)
         return NotImplemented
 
 
 def controls(chk: Check) -> None:
-    v = dict(json=True, parses=True, list=True, isdict=True, proto=False, temporary=True, marker=False)
-    if reference_transient(v) is not True or reference_transient(dict(v, proto=True)) is not False:
+    v = dict({a: False for a in ATOMS}, json=True, parses=True, list=True, isdict0=True, temporary0=True)
+    if reference_transient(v) is not True or reference_transient(dict(v, isdict1=True, proto1=True)) is not False:
         raise AnalysisError('reference transient table broken')
